@@ -169,13 +169,32 @@ impl Property for C09 {
                 v.violate("C09", "enumeration_misses", *t, format!("enumeration (step {step}) visits {} of {} live nodes; e.g. {} (shares {} bits with the local id, {} buckets) is never visited", seen.len(), live.len(), hex(&missing.0), lcp(&own, &missing.0), table.buckets.len()));
             }
         }
+        // a comparison with a table dump is meaningful only if nothing that can change the live set
+        // happened between the dumps that bracket it: the node neither processed a response nor sent
+        // a query of its own (equal dumps are not enough: a contact re-admitted by hearsay and
+        // pinged to death again inside the window leaves both dumps equal)
+        let node_addr = sc.reals[0].addr;
+        let mut change_times: Vec<u64> = run
+            .log
+            .iter()
+            .filter_map(|e| match e {
+                Ev::Recv { t, dst, bytes, .. } if *dst == node_addr => Msg::parse(bytes).filter(|m| !m.is_query()).map(|_| *t),
+                Ev::Send { t, src, bytes, .. } if *src == node_addr => Msg::parse(bytes).filter(|m| m.is_query()).map(|_| *t),
+                _ => None,
+            })
+            .collect();
+        change_times.sort();
+        let quiet_between = |ta: u64, tb: u64| -> bool {
+            let i = change_times.partition_point(|t| *t < ta);
+            !(i < change_times.len() && change_times[i] <= tb)
+        };
         // reply clauses
         for (pstep, (rbytes, t)) in &reply {
             let (before, after) = match (closest.get(&(pstep - 1)), closest.get(&(pstep + 1))) {
                 (Some(b), Some(a)) => (b, a),
                 _ => continue,
             };
-            if live_set(before.1) != live_set(after.1) {
+            if live_set(before.1) != live_set(after.1) || !quiet_between(before.2, after.2) {
                 skipped += 1;
                 continue;
             }
@@ -250,7 +269,16 @@ impl Property for C09 {
         if sc.params.contains_key("x_first") {
             let first = sc.param("x_first") as usize;
             if let (Some(a), Some(b)) = (closest.get(&(sc.param("x_dump_a") as usize)), closest.get(&(sc.param("x_dump_b") as usize))) {
-                if live_set(a.1) == live_set(b.1) {
+                // the 161 probes are answered over a stretch of time: the comparison is meaningful only
+                // if nothing that can change the live set happened in between. Equal dumps before and
+                // after are not enough (a contact re-admitted by hearsay and pinged to death again
+                // inside the window leaves both dumps equal): the node must neither have processed a
+                // response nor sent a query of its own between the two dumps.
+                let quiet = quiet_between(a.2, b.2);
+                if !quiet {
+                    v.hit("cross_check_skipped_table_in_flux");
+                }
+                if quiet && live_set(a.1) == live_set(b.1) {
                     let live: BTreeSet<Handle> = live_set(a.1).keys().copied().collect();
                     let mut union: BTreeSet<Handle> = BTreeSet::new();
                     let mut got = 0;
